@@ -14,6 +14,26 @@ NOT_DECIDED = 'closeness to the geometric Jacobian (truncation error of the forw
 ASSUMPTIONS = ['nalgebra try_inverse / pseudo_inverse / transpose / scaled_axis are correct']
 
 
+def _captures_unperturbed(cj, t, part):
+    """t is an upvar of the column closure that names a local of compute_jacobian holding the `part` (translation / rotation)
+    of forward(robot, joints) at the unperturbed joints (the joints parameter itself)"""
+    t = strip(t)
+    ups = mir.subterms(t, lambda x: x[0] == 'fld' and util.is_param(strip(x[1]), 1)) if not (isinstance(t, tuple) and t[0] == 'fld' and util.is_param(strip(t[1]), 1)) else [t]
+    for u in ups:
+        name = str(u[2]).lstrip('*&')
+        for l, n in cj.names.items():
+            if n != name:
+                continue
+            whole = [d for d in cj.defs().get(l, []) if d[4]]
+            if len(whole) != 1:
+                continue
+            dt = cj._def_term(whole[0])
+            fw = mir.subterms(dt, lambda x: x[0] == 'call' and cname(x[1]) == 'Kinematics::forward')
+            if fw and all(util.is_param(x[3], 2) for x in fw) and part in show(dt, maxdepth=8):
+                return True
+    return False
+
+
 def run(ctx):
     prog = ctx.prog
     ctx.rule('R15.1', 'column i: joints copy with slot i += epsilon; rows 0..3 = (P_pert - P_cur)/eps; rows 3..6 = scaled_axis(R_pert * R_cur^-1)/eps; stored at (0,i),(3,i), i in 0..6')
@@ -64,13 +84,13 @@ def run(ctx):
             s = strip(dp[2])
             if isinstance(s, tuple) and s[0] == 'call' and cname(s[1]).endswith('::sub'):
                 a, b = strip(s[2]), strip(s[3])
-                okp = mir.contains(a, lambda x: x == pert) and 'current_position' in show(b, maxdepth=4) and 'translation' in show(a, maxdepth=5)
+                okp = mir.contains(a, lambda x: x == pert) and _captures_unperturbed(cj, b, 'translation') and 'translation' in show(a, maxdepth=5)
         if isinstance(do, tuple) and do[0] == 'call' and cname(do[1]).endswith('::div') and is_eps(do[3]):
             sa = strip(do[2])
             if isinstance(sa, tuple) and sa[0] == 'call' and cname(sa[1]).endswith('::scaled_axis'):
                 w = algebra.word(sa[2])
                 oko = len(w) == 2 and w[0][1] == 1 and w[1][1] == -1 and mir.contains(w[0][0], lambda x: x == algebra.canon(pert)) and \
-                    'rotation' in show(w[0][0], maxdepth=5) and 'current_orientation' in show(w[1][0], maxdepth=4)
+                    'rotation' in show(w[0][0], maxdepth=5) and _captures_unperturbed(cj, w[1][0], 'rotation')
                 fo = algebra.show_word(w, lambda a: show(a, maxdepth=3))
     ctx.check(okp, 'R15.1', 'position-rows', c.where(0), c.path, 'position rows must be (P_perturbed - P_current) / epsilon', found=fp, detail=fp or '')
     ctx.check(oko, 'R15.1', 'rotation-rows', c.where(0), c.path,
